@@ -4,6 +4,7 @@ import Mathlib.Data.Matrix.Mul
 import Mathlib.Data.Fintype.BigOperators
 import Mathlib.Data.List.Perm.Basic
 import Mathlib.Data.List.Range
+import Mathlib.Data.List.Nodup
 import PyYetiVerif.Model.NTCbtf
 /-!
 Helper lemmas for `Props/C15b.lean`: the function-matrix operations of `Model/NTCbtf.lean` are
@@ -81,5 +82,50 @@ theorem flippv_perm (bset : List Nat) (n : Nat) (hnd : bset.Nodup) (hlt : ∀ i 
     intro a ha b hb hab
     subst hab
     exact ((mem_flippv _ _ _).1 hb).2 ha
+
+/-! ## positions in the partition vector -/
+
+theorem posOf_some {x : Nat} : ∀ {l : List Nat} {k : Nat}, posOf x l = some k → l[k]? = some x
+  | [], k, h => by simp [posOf] at h
+  | y :: t, k, h => by
+    unfold posOf at h
+    split at h
+    · rename_i hy
+      cases h
+      simp [hy]
+    · rcases hp : posOf x t with _ | k'
+      · simp [hp] at h
+      · simp [hp] at h
+        subst h
+        simpa using posOf_some hp
+
+theorem posOf_none {x : Nat} : ∀ {l : List Nat}, posOf x l = none ↔ x ∉ l
+  | [] => by simp [posOf]
+  | y :: t => by
+    unfold posOf
+    by_cases hy : y = x
+    · simp [hy]
+    · have := @posOf_none x t
+      simp [hy, this, Ne.symm hy]
+
+theorem posOf_of_getElem? {x : Nat} : ∀ {l : List Nat} {k : Nat}, l.Nodup → l[k]? = some x → posOf x l = some k
+  | [], k, _, h => by simp at h
+  | y :: t, 0, _, h => by
+    simp at h
+    simp [posOf, h]
+  | y :: t, k + 1, hnd, h => by
+    have hnd' := List.nodup_cons.1 hnd
+    have h' : t[k]? = some x := by simpa using h
+    have hmem : x ∈ t := List.mem_of_getElem? h'
+    have hne : y ≠ x := fun e => hnd'.1 (e ▸ hmem)
+    simp [posOf, hne, posOf_of_getElem? hnd'.2 h']
+
+
+theorem ofNat_val {n : Nat} [NeZero n] {a : Nat} (h : a < n) : (Fin.ofNat n a).1 = a := by
+  simp [Fin.ofNat, Nat.mod_eq_of_lt h]
+
+theorem ofNat_fin {n : Nat} [NeZero n] (i : Fin n) : Fin.ofNat n i.1 = i :=
+  Fin.ext (ofNat_val i.2)
+
 
 end PyYetiVerif.NT
